@@ -2,18 +2,20 @@
 //
 // Two levels, same oracle (a structure built from the pointer model and
 // compared field by field with a reflection dump of the descriptors):
-//   in-process  thrift_reflection.RegisterAST on the parsed + resolved AST of
-//               every program of the universe, every file: names, ids,
-//               requiredness, type expressions with key / value types, default
-//               and constant values, enum numbers, every annotation value in
-//               order, comments, base service, oneway, includes, namespaces;
-//               lookups by name across includes land in the defining file;
-//               Marshal -> Unmarshal is the identity;
-//   generated   the same programs generated with with_reflection, compiled and
-//               driven: GetFileDescriptorFor<File>() of every package, each Go
-//               struct-like type -> GetDescriptor() -> its own IDL definition,
-//               GetStructDescriptorByGoType / GetGoType map back, and the
-//               descriptor decoded at run time equals the in-process one.
+//
+//	in-process  thrift_reflection.RegisterAST on the parsed + resolved AST of
+//	            every program of the universe, every file: names, ids,
+//	            requiredness, type expressions with key / value types, default
+//	            and constant values, enum numbers, every annotation value in
+//	            order, comments, base service, oneway, includes, namespaces;
+//	            lookups by name across includes land in the defining file;
+//	            Marshal -> Unmarshal is the identity;
+//	generated   the same programs generated with with_reflection, compiled and
+//	            driven: GetFileDescriptorFor<File>() of every package, each Go
+//	            struct-like type -> GetDescriptor() -> its own IDL definition,
+//	            GetStructDescriptorByGoType / GetGoType map back, and the
+//	            descriptor decoded at run time equals the in-process one.
+//
 // Universe: the interplay program, and variants with annotations carrying
 // repeated keys on every node kind, constants of every shape, typedef chains
 // across files and the same IDL base name in two directories.
@@ -31,10 +33,10 @@ import (
 	"strconv"
 	"strings"
 
-	"verif/internal/docs"
 	"verif/internal/evid"
 	"verif/internal/gen"
 	"verif/internal/idl"
+	"verif/internal/progs"
 	"verif/internal/universe"
 
 	"verif/checks/c15/probe"
@@ -540,98 +542,8 @@ func withComments(files []*idl.File) (map[any]string, map[string]string) {
 
 func programs() []*prog {
 	var out []*prog
-	ip := docs.Interplay()
-	out = append(out, &prog{name: "interplay", files: ip.Prog.Files})
-	// annotations with repeated keys on every node kind + same base name in two directories
-	i32, str := idl.T(idl.I32), idl.T(idl.String)
-	ann := func(kv ...string) []idl.Ann {
-		var a []idl.Ann
-		for i := 0; i+1 < len(kv); i += 2 {
-			a = append(a, idl.Ann{Key: kv[i], Values: []string{kv[i+1]}})
-		}
-		return a
-	}
-	x := &idl.File{Path: "x/common.thrift", Namespaces: []*idl.Namespace{{Lang: "go", Name: "r.x"}}}
-	c1 := &idl.Struct{Cat: "struct", Name: "C1", Fields: []*idl.Field{{ID: 1, ExplicitID: true, Name: "v", Type: i32}}}
-	x.Add(c1)
-	y := &idl.File{Path: "y/common.thrift", Namespaces: []*idl.Namespace{{Lang: "go", Name: "r.y"}}}
-	c2 := &idl.Struct{Cat: "struct", Name: "C2", Fields: []*idl.Field{{ID: 1, ExplicitID: true, Name: "v", Type: str}}}
-	y.Add(c2)
-	z := &idl.File{Path: "z.thrift", Includes: []*idl.Include{{Path: "y/common.thrift", File: y}}, Namespaces: []*idl.Namespace{{Lang: "go", Name: "r.z"}}}
-	zs := &idl.Struct{Cat: "struct", Name: "ZS", Fields: []*idl.Field{{ID: 1, ExplicitID: true, Name: "c", Type: idl.StructT(c2)}}}
-	z.Add(zs)
-	e := &idl.Enum{Name: "AE", Values: []*idl.EnumValue{{Name: "P", Anns: ann("ev", "1", "ev", "2")}, {Name: "Q", Value: 9, Explicit: true}, {Name: "R"}}, Anns: ann("en", "a", "other", "b", "en", "c")}
-	m := &idl.File{Path: "top.thrift", Includes: []*idl.Include{{Path: "x/common.thrift", File: x}, {Path: "z.thrift", File: z}}, Namespaces: []*idl.Namespace{{Lang: "go", Name: "r.top", Anns: ann("nsa", "1")}, {Lang: "py", Name: "r_top"}}}
-	m.Add(e)
-	at := idl.T(idl.String)
-	at.Anns = ann("ta", "1", "ta", "2")
-	td := &idl.Typedef{Name: "ATd", Type: idl.MapOf(str, idl.ListOf(idl.StructT(c1))), Anns: ann("td", "x", "td", "y")}
-	m.Add(td)
-	ex := &idl.Struct{Cat: "exception", Name: "AX", Fields: []*idl.Field{{ID: 1, ExplicitID: true, Name: "m", Type: str}}, Anns: ann("xa", "1")}
-	m.Add(ex)
-	s := &idl.Struct{Cat: "struct", Name: "AS", Fields: []*idl.Field{
-		{ID: 1, ExplicitID: true, Name: "a", Type: at, Req: idl.ReqRequired, Anns: ann("fa", "1", "fb", "2", "fa", "3"), Default: idl.VS("d\"q")},
-		{ID: 2, ExplicitID: true, Name: "b", Type: idl.TypedefT(td), Req: idl.ReqOptional},
-		{ID: -3, ExplicitID: true, Name: "c", Type: idl.StructT(c1)},
-		{Name: "d", Type: idl.StructT(zs)},
-		{ID: 70, ExplicitID: true, Name: "e", Type: idl.EnumT(e), Default: idl.VE(e, e.Values[1])},
-		{ID: 71, ExplicitID: true, Name: "f", Type: idl.ListOf(idl.T(idl.Double)), Default: idl.VL(idl.VD(1.5), idl.VI(2))},
-		{ID: 72, ExplicitID: true, Name: "g", Type: idl.MapOf(str, idl.T(idl.Bool)), Default: idl.VM([2]*idl.Value{idl.VS("k"), idl.VB(true)}, [2]*idl.Value{idl.VS("l"), idl.VB(false)})},
-	}, Anns: ann("sa", "1", "sa", "2", "sb", "3")}
-	m.Add(s)
-	u := &idl.Struct{Cat: "union", Name: "AU", Fields: []*idl.Field{{ID: 1, ExplicitID: true, Name: "n", Type: i32}, {ID: 2, ExplicitID: true, Name: "s", Type: idl.StructT(s)}}}
-	m.Add(u)
-	m.Add(&idl.Const{Name: "AK", Type: idl.MapOf(str, idl.ListOf(i32)), Value: idl.VM([2]*idl.Value{idl.VS("a"), idl.VL(idl.VI(1), idl.VI(-2))}, [2]*idl.Value{idl.VS("b"), idl.VL()}), Anns: ann("ca", "1")})
-	m.Add(&idl.Const{Name: "AKE", Type: idl.EnumT(e), Value: idl.VE(e, e.Values[2])})
-	m.Add(&idl.Const{Name: "AKS", Type: idl.StructT(c1), Value: idl.VM([2]*idl.Value{idl.VS("v"), idl.VI(4)})})
-	base := &idl.Service{Name: "ABase", Functions: []*idl.Function{{Name: "ping"}}}
-	m.Add(base)
-	m.Add(&idl.Service{Name: "ASvc", Extends: base, Functions: []*idl.Function{
-		{Name: "call", Ret: idl.StructT(s), Args: []*idl.Field{{ID: 1, ExplicitID: true, Name: "q", Type: idl.StructT(c1)}, {Name: "r", Type: idl.TypedefT(td)}}, Throws: []*idl.Field{{ID: 1, ExplicitID: true, Name: "x", Type: idl.StructT(ex)}}, Anns: ann("ma", "1", "ma", "2")},
-		{Name: "fire", Oneway: true, Args: []*idl.Field{{ID: 1, ExplicitID: true, Name: "n", Type: i32}}},
-		{Name: "nothing"}}, Anns: ann("va", "1")})
-	out = append(out, &prog{name: "annotated-same-base-name", files: []*idl.File{m, x, y, z}})
-
-	// one file including two files with the same base name
-	{
-		x := &idl.File{Path: "x/common.thrift", Namespaces: []*idl.Namespace{{Lang: "go", Name: "q.x"}}}
-		c1 := &idl.Struct{Cat: "struct", Name: "C1", Fields: []*idl.Field{{ID: 1, ExplicitID: true, Name: "v", Type: i32}}}
-		x.Add(c1)
-		y := &idl.File{Path: "y/common.thrift", Namespaces: []*idl.Namespace{{Lang: "go", Name: "q.y"}}}
-		c2 := &idl.Struct{Cat: "struct", Name: "C2", Fields: []*idl.Field{{ID: 1, ExplicitID: true, Name: "v", Type: str}}}
-		y.Add(c2)
-		m := &idl.File{Path: "both.thrift", Includes: []*idl.Include{{Path: "x/common.thrift", File: x}, {Path: "y/common.thrift", File: y}}, Namespaces: []*idl.Namespace{{Lang: "go", Name: "q.both"}}}
-		m.Add(&idl.Struct{Cat: "struct", Name: "Both", Fields: []*idl.Field{{ID: 1, ExplicitID: true, Name: "a", Type: idl.StructT(c1)}, {ID: 2, ExplicitID: true, Name: "b", Type: idl.StructT(c2)}}})
-		out = append(out, &prog{name: "two-includes-same-base-name", files: []*idl.File{m, x, y}})
-	}
-	// typedef chains across three files
-	{
-		a := &idl.File{Path: "a.thrift", Namespaces: []*idl.Namespace{{Lang: "go", Name: "ch.a"}}}
-		id := &idl.Typedef{Name: "Id", Type: idl.T(idl.I64)}
-		a.Add(id)
-		ids := &idl.Typedef{Name: "Ids", Type: idl.ListOf(idl.TypedefT(id))}
-		a.Add(ids)
-		en := &idl.Enum{Name: "E", Values: []*idl.EnumValue{{Name: "A"}, {Name: "B", Value: 4, Explicit: true}}}
-		a.Add(en)
-		te := &idl.Typedef{Name: "TE", Type: idl.EnumT(en)}
-		a.Add(te)
-		st := &idl.Struct{Cat: "struct", Name: "S", Fields: []*idl.Field{{ID: 1, ExplicitID: true, Name: "id", Type: idl.TypedefT(id)}}}
-		a.Add(st)
-		ts := &idl.Typedef{Name: "TS", Type: idl.StructT(st)}
-		a.Add(ts)
-		b := &idl.File{Path: "sub/b.thrift", Includes: []*idl.Include{{Path: "../a.thrift", File: a}}, Namespaces: []*idl.Namespace{{Lang: "go", Name: "ch.b"}}}
-		bid := &idl.Typedef{Name: "BId", Type: idl.TypedefT(id)}
-		b.Add(bid)
-		bts := &idl.Typedef{Name: "BTS", Type: idl.TypedefT(ts)}
-		b.Add(bts)
-		bm := &idl.Typedef{Name: "BM", Type: idl.MapOf(idl.TypedefT(te), idl.TypedefT(ids))}
-		b.Add(bm)
-		c := &idl.File{Path: "c.thrift", Includes: []*idl.Include{{Path: "sub/b.thrift", File: b}}, Namespaces: []*idl.Namespace{{Lang: "go", Name: "ch.c"}}}
-		cid := &idl.Typedef{Name: "CId", Type: idl.TypedefT(bid)}
-		c.Add(cid)
-		c.Add(&idl.Struct{Cat: "struct", Name: "U", Fields: []*idl.Field{{ID: 1, ExplicitID: true, Name: "id", Type: idl.TypedefT(cid)}, {ID: 2, ExplicitID: true, Name: "m", Type: idl.TypedefT(bm), Req: idl.ReqOptional}, {ID: 3, ExplicitID: true, Name: "s", Type: idl.TypedefT(bts)}, {ID: 4, ExplicitID: true, Name: "l", Type: idl.ListOf(idl.SetOf(idl.TypedefT(bts)))}}})
-		c.Add(&idl.Service{Name: "CS", Functions: []*idl.Function{{Name: "get", Ret: idl.TypedefT(bts), Args: []*idl.Field{{ID: 1, ExplicitID: true, Name: "id", Type: idl.TypedefT(cid)}}}}})
-		out = append(out, &prog{name: "typedef-chains", files: []*idl.File{c, b, a}})
+	for _, p := range progs.Programs() {
+		out = append(out, &prog{name: p.Name, files: p.Files})
 	}
 	return out
 }
